@@ -3,3 +3,4 @@ import KestrelProofs.Chunks
 import KestrelProofs.Noise
 import KestrelProofs.File
 import KestrelProofs.Prims
+import KestrelProofs.Scrypt
